@@ -215,6 +215,52 @@ def emptyToNoneO : List (String × J) → List (String × J)
   | (k, v) :: xs => (k, emptyToNone v) :: emptyToNoneO xs
 end
 
+mutual
+/-- well-formedness of a legacy document w.r.t. nulls: no list `[null]` anywhere (that is the YANG
+    spelling of null, which `convert_none_to_empty` leaves alone) -/
+def noBoxedNull : J → Bool
+  | .arr l => !(J.beqL l [.null]) && noBoxedNullL l
+  | .obj l => noBoxedNullO l
+  | _ => true
+def noBoxedNullL : List J → Bool
+  | [] => true
+  | x :: xs => noBoxedNull x && noBoxedNullL xs
+def noBoxedNullO : List (String × J) → Bool
+  | [] => true
+  | (_, v) :: xs => noBoxedNull v && noBoxedNullO xs
+end
+
+mutual
+/-- a YANG-form tree: no bare null (every null is spelled `[null]`) -/
+def noBareNull : J → Bool
+  | .null => false
+  | .arr l => J.beqL l [.null] || noBareNullL l
+  | .obj l => noBareNullO l
+  | _ => true
+def noBareNullL : List J → Bool
+  | [] => true
+  | x :: xs => noBareNull x && noBareNullL xs
+def noBareNullO : List (String × J) → Bool
+  | [] => true
+  | (_, v) :: xs => noBareNull v && noBareNullO xs
+end
+
+mutual
+/-- no binary float left in the tree (what `convert_dict` produces when no integer sits under a
+    string-typed key) -/
+def noFlt : J → Bool
+  | .flt _ => false
+  | .arr l => noFltL l
+  | .obj l => noFltO l
+  | _ => true
+def noFltL : List J → Bool
+  | [] => true
+  | x :: xs => noFlt x && noFltL xs
+def noFltO : List (String × J) → Bool
+  | [] => true
+  | (_, v) :: xs => noFlt v && noFltO xs
+end
+
 /-- `s.split(ns)[1]` when `ns in s` -/
 def stripNs (ns s : String) : String :=
   match s.splitOn ns with
@@ -289,20 +335,23 @@ def eqTypes : List String :=
 def targetsOf (kind : String) (targets : Dict) : List J :=
   targets.map (fun dv => J.obj [("degree_uid", .str dv.1), (kind, dv.2)])
 
+/-- `targets = params.pop(kind, None)` and the list it contributes to `new_targets` -/
+def popTargets (kind : String) (p : Dict) : PyR (Dict × List J) :=
+  match p.get? kind with
+  | none => pure (p, [])
+  | some t =>
+    if !t.truthy then pure (p.erase kind, [])
+    else match t with
+      | .obj targets => pure (p.erase kind, targetsOf kind targets)
+      | _ => attributeError "items"
+
 /-- the body of `convert_degree` for one ROADM `params` dict -/
 def degreeToYang (params : Dict) : PyR Dict := do
-  let mut p := params
-  let mut newT : List J := []
-  for kind in eqTypes do
-    match p.get? kind with
-    | none => pure ()
-    | some t =>
-      p := p.erase kind
-      if t.truthy then
-        match t with
-        | .obj targets => newT := newT ++ targetsOf kind targets
-        | _ => attributeError "items"
-  if newT.isEmpty then return p else return p.set "per_degree_power_targets" (.arr newT)
+  let (p1, t1) ← popTargets "per_degree_pch_out_db" params
+  let (p2, t2) ← popTargets "per_degree_psd_out_mWperGHz" p1
+  let (p3, t3) ← popTargets "per_degree_psd_out_mWperSlotWidth" p2
+  let newT := t1 ++ t2 ++ t3
+  if newT.isEmpty then return p3 else return p3.set "per_degree_power_targets" (.arr newT)
 
 def isRoadmWithParams (elem : Dict) : PyR Bool := do
   let t ← elem.get "type"
@@ -318,21 +367,35 @@ def convertDegree (doc : Dict) : PyR Dict :=
   forEachIn doc "elements" (fun elem => do
     if ← isRoadmWithParams elem then onParams elem degreeToYang else pure elem)
 
+/-- `elem[PARAMS_KEY][eq_type][degree_uid] = target[eq_type]` (creating the dict when needed) -/
+def setDegree (params : Dict) (kind deg : String) (v : J) : PyR Dict :=
+  match params.get? kind with
+  | none => pure (params.set kind (.obj [(deg, v)]))
+  | some (.obj cur) => pure (params.set kind (.obj (Dict.set cur deg v)))
+  | some _ => typeError "per-degree entry is not a dict"
+
+/-- one equalisation type of one target in `process_power_targets` -/
+def applyKind (target : Dict) (deg kind : String) (params : Dict) : PyR Dict :=
+  match target.get? kind with
+  | none => pure params
+  | some v => setDegree params kind deg v
+
 /-- `process_power_targets` for one target -/
 def applyTarget (params : Dict) (target : Dict) : PyR Dict := do
   let deg ← target.get "degree_uid"
   let degS ← match deg with
     | .str s => pure s
     | _ => typeError "unhashable or non-string degree uid"
-  let mut p := params
-  for kind in eqTypes do
-    match target.get? kind with
-    | none => pure ()
-    | some v =>
-      if !p.has kind then p := p.set kind (.obj [])
-      let cur ← asObj (← p.get kind)
-      p := p.set kind (.obj (cur.set degS v))
-  return p
+  let p1 ← applyKind target degS "per_degree_pch_out_db" params
+  let p2 ← applyKind target degS "per_degree_psd_out_mWperGHz" p1
+  applyKind target degS "per_degree_psd_out_mWperSlotWidth" p2
+
+/-- `process_power_targets` -/
+def applyTargets : List J → Dict → PyR Dict
+  | [], p => pure p
+  | t :: ts, p => do
+    let p' ← applyTarget p (← asObj t)
+    applyTargets ts p'
 
 /-- the body of `convert_back_degree` for one ROADM `params` dict -/
 def degreeToLegacy (params : Dict) : PyR Dict := do
@@ -341,8 +404,7 @@ def degreeToLegacy (params : Dict) : PyR Dict := do
   | some pt =>
     let p := params.erase "per_degree_power_targets"
     if !pt.truthy then return p
-    let targets ← asArr pt
-    targets.foldlM (fun acc t => do applyTarget acc (← asObj t)) p
+    applyTargets (← asArr pt) p
 
 /-- `convert_back_degree` -/
 def convertBackDegree (doc : Dict) : PyR Dict :=
@@ -852,15 +914,18 @@ def yangToLegacyFixed := yangToLegacyWith convertBackDeltaPowerRangeAll
 
 /-! ### alias expansion of `_equipment_from_json` (json_io.py:576-611) -/
 
+/-- a list of strings -/
+def strList : List J → PyR (List String)
+  | [] => pure []
+  | .str s :: t => do return s :: (← strList t)
+  | _ :: _ => typeError "alias is not a string"
+
 /-- `entry['other_name'] + [subkey]` -/
 def aliasNames (entry : Dict) : PyR (List String) := do
   let sub := match entry.get? "type_variety" with
     | some (.str s) => s
     | _ => "default"
-  let others ← asArr (← entry.get "other_name")
-  let names ← others.mapM (fun o => match o with
-    | .str s => pure s
-    | _ => typeError "alias is not a string")
+  let names ← strList (← asArr (← entry.get "other_name"))
   return names ++ [sub]
 
 /-- the entries built for one library entry: (key in the library, kwargs given to the constructor).
